@@ -247,7 +247,7 @@ impl Check for TermCheck {
             Flavor::C02 => format!("C02 MultiProgress (sequential part): 1..6 bars, add/insert/insert_from_back/insert_before/insert_after/remove, bar updates, finish*/abandon*, drop of handles (clones), bar-level and mp-level println, clear, suspend, top alignment and bottom alignment. One scenario in four is a scheduled one (mode sched): 2..4 worker threads update their own bars (inc/set_message/finish/abandon, some own the last handle and drop it) while a structural thread prints, suspends (closure writes to the terminal), clears, switches the alignment, removes its own bar and adds/inserts a late bar (add/insert/insert_from_back/insert_before/insert_after) and an optional third party pokes the bar being removed, under a seeded random/sticky/PCT scheduler; every painted frame is recorded and must show for each bar a state it really had, not older than shown before and not from the future, each member once, in logical order, log lines above the region, and the last frame the final states; printed lines must all be there at the end. {common}"),
             Flavor::C03 => format!("C03 log lines: the C01/C02 generators biased to println (bar and mp level, empty, multi-line, wider than the terminal), suspend with printing closures, finish/drop in every order, remove, clear, and rate limited targets (1..255 Hz) with bursts at one instant so that ordinary draws are skipped while dropped bars wait to be reaped; only violations in which a printed line is missing, duplicated, reordered or overwritten are reported under C03. One scenario in five is a scheduled one (mode sched): one or two threads print (println, external output inside suspend with scheduling points and virtual sleeps inside the closure; bar level and MultiProgress level) while other simulated threads and optionally a steady ticker draw the same bars under a seeded scheduler; every line whose call returned must be on the terminal exactly once at every later flush and at the end, each thread's lines in emission order. {common}"),
             Flavor::C04 => format!("C04 finishing: every ProgressFinish variant through explicit calls, with_finish + drop of the last handle (clones dropped in any order), finish_using_style and iterator exhaustion, after histories that exhaust both rate limiters at the finishing instant; standalone and MultiProgress; the forced final frame must be painted and show the final state; visibly finished dropped bars stay until println/clear/suspend/remove. {common}"),
-            Flavor::C16 => format!("C16 tabs: random order of with_tab_width/set_tab_width (0,1,2,4,8,13), with_style/set_style (templates with literal tabs and a custom key whose output contains tabs), with_message/set_message/with_prefix/set_prefix/finish_with_message/abandon_with_message/with_finish(WithMessage)+drop with 0..5 tabs each (the four builder calls in all 24 orders), ticks; additionally no string passed to the terminal may contain a TAB and message()/prefix() must return the text expanded with the current tab width. One scenario in ten is a scheduled one (mode sched): one thread sets messages and prefixes with tabs, another changes the tab width, a third draws, on clones of one bar under the seeded scheduler; afterwards message()/prefix() and the frame must be the last texts expanded with the last width. {common}"),
+            Flavor::C16 => format!("C16 tabs: random order of with_tab_width/set_tab_width (0,1,2,4,8,13,33,70 and, one change in sixty, 65535/65536/100000), with_style/set_style (templates with literal tabs, escaped braces - also right behind a tab - and a custom key whose output contains tabs), with_message/set_message/with_prefix/set_prefix/finish_with_message/abandon_with_message/with_finish(WithMessage)+drop with 0..5 tabs each (the four builder calls in all 24 orders), ticks; additionally no string passed to the terminal may contain a TAB and message()/prefix() must return the text expanded with the current tab width. One scenario in ten is a scheduled one (mode sched): one thread sets messages and prefixes with tabs, another changes the tab width, a third draws, on clones of one bar under the seeded scheduler; afterwards message()/prefix() and the frame must be the last texts expanded with the last width. {common}"),
             Flavor::C19 => format!("C19 geometry: terminal sizes W,H in 1..8 (plus a few larger), MultiProgress with up to 12 bars of 1..3 lines and single bars, histories growing the set of bars past the terminal height and shrinking it again; when the bars need more rows than the terminal has, the region must be the leading lines (or leading whole bars) that fit, nothing of the region may scroll out of reach and later frames must leave no remnant; in one history in three the window gets another height between calls (taller: rows come back from the scrollback or blank rows are added; shorter: only when blank rows below the cursor can go) and the next frame must be cut for the height the terminal has then - omitted bars appear as soon as there is room. {common}"),
         }
     }
